@@ -80,7 +80,7 @@ CHECKS = {
             'Bytes beyond written are documented garbage and not compared.',
             'DESIGN.md sec. 6 C18'),
     'C19': ('twin-decoder differential testing of latin1_byte_compatible_up_to in generated decoder states; ' + PBT,
-            'Exploration: every atom / atom-pair / BOM look-alike prefix x 3 BOM modes x query buffers with each special byte at every position, seeded random (prefix, buffer) pairs; Some(n) semantics via a twin, None justified by pending BOM / never-compatible encoding / observable non-neutrality - for ISO-2022-JP decided in both directions by the reference model\'s state machine -, query does not disturb the decoder.',
+            'Exploration: every atom / atom-pair / BOM look-alike prefix x 3 BOM modes x query buffers with each special byte at every position, seeded random (prefix, buffer) pairs; Some(n) semantics via a twin, None justified by pending BOM / never-compatible encoding / observable non-neutrality - for ISO-2022-JP a None is rejected whenever the reference model\'s state machine is back in its initial state -, query does not disturb the decoder.',
             'The distinguishing set separates non-neutral states; single-byte exactness uses the frozen indexes.',
             'DESIGN.md sec. 6 C19'),
     'C20': ('exhaustive enumeration of a finite space: predicates recomputed from decode/encode behaviour; differential testing against the reference models on longer inputs through short output buffers',
